@@ -27,8 +27,9 @@ DOC_F = "query Q($s: Boolean!) { a { id @skip(if: $s) name } }"
 DOC_G = "{ ...RF color } fragment RF on Query { num a { ...AF } } fragment AF on A { id }"
 DOC_H = "{ ...RF } fragment RF on Query { color hello(n: 2) }"
 DOC_M = "query($s: Boolean = false) { x: num @skip(if: false) ...MF color } fragment MF on Query { x: num @skip(if: $s) }"
-DOC_V = "query A($t: Tag, $n: Int = 1) { hello(n: $n, t: $t) num } query B($t: Tag, $n: Int = 2) { hello(n: $n, t: $t) color }"
-SHARED_V = {"t": "tg"}   # one mapping object given to both requests (and to every run): the engine must treat it as read-only
+DOC_V = ("query A($t: Tag, $n: Int = 1, $p: P) { hello(n: $n, t: $t, p: $p) num } "
+         "query B($t: Tag, $n: Int = 2, $p: P) { hello(n: $n, t: $t, p: $p) color }")
+SHARED_V = {"t": "tg", "p": {"a": 1, "b": "x", "c": [2, 3]}}   # one mapping object given to both requests (and to every run): the engine must treat it as read-only
 DOC_N = "query($p: Int, $x: Int!) { hello(p: {a: $p, c: [$x, 1]}) lst(xs: [$x], ps: [{a: $p}]) }"
 POOL = [
     # label, text, op, variables, faults, variant, ctx-kind
